@@ -53,10 +53,20 @@ EXPLANATION = (
     'is inverted for the wrap-around basin (decided exactly over the weak '
     'orderings of lower gate, upper gate and angle).  Constructs are located '
     'by role and compared modulo temporaries, guard polarity and call '
-    'spelling; an unrecognised restructuring is reported as incomplete.  The '
-    'gate ARITHMETIC along each '
-    'path (linear inequalities in the buffer width) is not decided: that '
-    'needs a solver, a different technique family.')
+    'spelling; an unrecognised restructuring is reported as incomplete.  '
+    'Added after the fourth hunt: (D3.buffer-range) for the LITERAL boundary '
+    'sets the wrappers pass, the buffer range that the validation of _rotamers '
+    'admits (folded with those literals) keeps widest basin + 2 * buffer '
+    'within 360 - the condition under which the swapped gates of the '
+    'wrap-around basin stay in the order the exit test relies on - or the exit '
+    'test treats a widened basin that spans the circle as not leavable '
+    '(recognised by form, decided by a truth table together with the weak '
+    'orderings); (D1.angles-in-range) every in-place wrap `a[a < 0] += 360` in '
+    'rotamer.py is followed, before the array is used, by a clamp / re-wrap of '
+    'the values the floating-point sum rounds up to 360.  The gate ARITHMETIC '
+    'for symbolic boundary sets and buffers (linear inequalities along each '
+    'path) is still not decided: that needs a solver, a different technique '
+    'family; only source literals are folded.')
 
 
 # ---------------------------------------------------------------------------
@@ -865,15 +875,25 @@ _CMP = {ast.Lt: lambda a, b: a < b, ast.LtE: lambda a, b: a <= b, ast.Gt: lambda
         ast.Eq: lambda a, b: a == b, ast.NotEq: lambda a, b: a != b}
 
 
-def _interpret(fn, env, calls):
+def _interpret(fn, env, calls, forced=None):
     """Concrete evaluation of a loop-free function body (if / assignment /
     return over comparisons, and/or/not, constants and the given calls).
-    Anything else raises _Unsupported."""
+    Anything else raises _Unsupported.  `forced`: {id(test node): bool} - the
+    outcome of `if` tests that are decided by the caller's truth table
+    instead of being evaluated (tests over opaque values).  Arithmetic,
+    subscripts and int()/float() of an opaque value are opaque."""
     env = dict(env)
+    forced = forced or {}
 
     def ev(e):
         if isinstance(e, ast.Constant):
             return e.value
+        if isinstance(e, (ast.Subscript, ast.BinOp)) or (isinstance(e, ast.UnaryOp) and isinstance(e.op, (ast.USub, ast.UAdd))) or \
+                (isinstance(e, ast.Call) and call_name(e) in ('int', 'float') and len(e.args) == 1 and not e.keywords):
+            parts = [ev(x) for x in ast.iter_child_nodes(e) if isinstance(x, ast.expr) and not (isinstance(x, ast.Name) and x.id in ('int', 'float'))]
+            if any(isinstance(x, _Tok) for x in parts):
+                return _Tok('<derived>')
+            raise _Unsupported('expression %s' % u(e)[:60])
         if isinstance(e, ast.Name):
             if e.id not in env:
                 raise _Unsupported('name %s' % e.id)
@@ -884,6 +904,8 @@ def _interpret(fn, env, calls):
             left = ev(e.left)
             for op, right in zip(e.ops, e.comparators):
                 r = ev(right)
+                if isinstance(left, _Tok) or isinstance(r, _Tok):
+                    return _Tok('<derived>')          # a named opaque condition: its truth value is never taken (see _truth)
                 if type(op) not in _CMP or not all(isinstance(x, (int, float)) and not isinstance(x, bool) for x in (left, r)):
                     raise _Unsupported('comparison %s' % u(e))
                 if not _CMP[type(op)](left, r):
@@ -934,7 +956,7 @@ def _interpret(fn, env, calls):
                 assign(s.target, ev(s.value))
                 continue
             if isinstance(s, ast.If):
-                r = run(s.body if _truth(ev(s.test)) else s.orelse)
+                r = run(s.body if (forced[id(s.test)] if id(s.test) in forced else _truth(ev(s.test))) else s.orelse)
                 if r is not None:
                     return r
                 continue
@@ -956,13 +978,13 @@ def d3_exit_test(ck, mod):
     gsig = params(mod.func(GATES))
     if len(ps) != 4 or len(gsig) != 3:
         ck.missing(rule + '.order', 'signatures of is_buffered_transition / get_gates not recognised')
-        return
+        return {}
     cs_, na, hb, bw = ps
     calls = [c for c in calls_in(ft) if call_name(c) == GATES]
     b = bind_args(calls[0], gsig) if len(calls) == 1 else None
     if b is None or len(b) != 3:
         ck.missing(rule + '.order', 'one call get_gates(<state>, <boundaries>, <buffer>) in is_buffered_transition')
-        return
+        return {}
     call = calls[0]
     v = _worst([classify(fi.expand(b[p]), [want], scope=set(ps)) for p, want in zip(gsig, (cs_, hb, bw))])
     ck.decide(v, rule + '.order', mod, call, F, u(call), 'gates are computed for the current state, the boundaries and the buffer',
@@ -971,27 +993,55 @@ def d3_exit_test(ck, mod):
           and value_call(fi, s.value, GATES) is call]
     if len(un) != 1 or len(un[0].targets[0].elts) != 2 or not all(isinstance(e, ast.Name) for e in un[0].targets[0].elts):
         ck.missing(rule + '.order', 'unpacking `<lower>, <upper> = get_gates(...)` in is_buffered_transition')
-        return
+        return {}
     LO, UP = [e.id for e in un[0].targets[0].elts]
     ck.ok(rule + '.order', mod, un[0], u(un[0]), '(lower, upper) unpacked in the order get_gates returns them: %s = lower gate, %s = upper gate' % (LO, UP))
+
+    # --- tests that involve neither a gate nor the angle (state / boundaries / buffer only) are
+    # not order comparisons of the three numbers: each is recognised by its form and then decided
+    # by a truth table.  The one form understood: "the widened basin spans the whole circle"
+    # (width of the current basin + 2 * buffer >= 360), under which the basin cannot be left.
+    covering = []
+    for st in walk_local(ft):
+        if not isinstance(st, ast.If):
+            continue
+        x = canon(fi.expand(st.test))
+        nm = names_loaded(x) - {'int', 'float'}
+        if not nm or not nm <= {cs_, hb, bw}:
+            continue
+        if not _is_covering_test(x, cs_, hb, bw):
+            ck.missing(rule + '.exit-test', 'a test of is_buffered_transition over the state / boundaries / buffer is not recognised: %s' % u(x)[:120])
+            return {}
+        covering.append(st)
+    if len(covering) > 2:
+        ck.missing(rule + '.exit-test', '%d covering tests in is_buffered_transition' % len(covering))
+        return {}
 
     # --- the decision itself, exactly: a boolean function of order comparisons
     # between three numbers is determined by the weak ordering of the three.
     def spec(lo, up, a):
         return (up < lo and up <= a <= lo) or (lo < up and not (lo <= a <= up))
-    cases = {'wrap': [], 'ordinary': [], 'degenerate': []}
+    cases = {'wrap': [], 'ordinary': [], 'degenerate': [], 'covering': []}
     try:
-        for lo, up, a in itertools.product((0, 1, 2), repeat=3):
-            env = {cs_: _Tok(cs_), hb: _Tok(hb), bw: _Tok(bw), na: a}
-            got = _interpret(ft, env, {GATES: lambda e, lo=lo, up=up: (lo, up)})
-            if isinstance(got, _Tok) or isinstance(got, tuple):
-                raise _Unsupported('non-boolean result')
-            kind = 'wrap' if up < lo else 'ordinary' if lo < up else 'degenerate'
-            if bool(got) != bool(spec(lo, up, a)):
-                cases[kind].append('%s=%d, %s=%d, %s=%d: returns %s, expected %s' % (LO, lo, UP, up, na, a, bool(got), bool(spec(lo, up, a))))
+        for truth in itertools.product((False, True), repeat=len(covering)):
+            forced = {id(st.test): t for st, t in zip(covering, truth)}
+            for lo, up, a in itertools.product((0, 1, 2), repeat=3):
+                env = {cs_: _Tok(cs_), hb: _Tok(hb), bw: _Tok(bw), na: a}
+                got = _interpret(ft, env, {GATES: lambda e, lo=lo, up=up: (lo, up)}, forced)
+                if isinstance(got, _Tok) or isinstance(got, tuple):
+                    raise _Unsupported('non-boolean result')
+                want = False if any(truth) else bool(spec(lo, up, a))
+                kind = 'covering' if any(truth) else 'wrap' if up < lo else 'ordinary' if lo < up else 'degenerate'
+                if bool(got) != want:
+                    cases[kind].append('%s=%d, %s=%d, %s=%d: returns %s, expected %s' % (LO, lo, UP, up, na, a, bool(got), want))
     except _Unsupported as e:
         ck.missing(rule + '.exit-test', 'is_buffered_transition is not a loop-free decision over order comparisons of the gates and the angle (%s)' % e)
-        return
+        return {}
+    if covering:
+        ck.check(not cases['covering'], rule + '.exit-test', mod, covering[0], F, 'widened basin spans the circle (%s): no transition' % fi.xu(covering[0].test),
+                 'a basin whose widened width reaches 360 degrees cannot be left',
+                 'when the width of the current basin plus twice the buffer reaches 360 the angle cannot leave it: the result must be False; '
+                 'counter-example: ' + '; '.join(cases['covering'][:2]))
     ck.check(not cases['wrap'], rule + '.exit-test', mod, ft, F, 'wrap-around basin (%s < %s): transition iff %s <= %s <= %s' % (UP, LO, UP, na, LO),
              'for the wrap-around basin (gates flipped) the exit region is BETWEEN the gates',
              'when upper < lower (wrap-around basin) a transition is `upper <= new_angle <= lower`; counter-example: ' + '; '.join(cases['wrap'][:2]))
@@ -1001,6 +1051,319 @@ def d3_exit_test(ck, mod):
     ck.check(not cases['degenerate'], rule + '.exit-test', mod, ft, F, 'result defaults to False',
              'no transition unless an exit test fires', 'with coinciding gates no exit test fires and the result must be False; counter-example: ' +
              '; '.join(cases['degenerate'][:2]))
+    return {'covering-handled': bool(covering) and not any(cases.values())}
+
+
+# --- linear forms (constant folding over + - * / of literals; no solving) -----
+
+def _lin(e):
+    """(terms, constant) of an expression built with + - unary minus,
+    multiplication / division by a literal and int()/float() of a term:
+    terms = {canonical text of a non-arithmetic sub-expression: coefficient}.
+    None if the expression is not of that shape."""
+    if isinstance(e, ast.Constant):
+        return ({}, float(e.value)) if type(e.value) in (int, float) else None
+    if isinstance(e, ast.UnaryOp) and isinstance(e.op, (ast.USub, ast.UAdd)):
+        r = _lin(e.operand)
+        if r is None:
+            return None
+        k = -1.0 if isinstance(e.op, ast.USub) else 1.0
+        return ({t: k * c for t, c in r[0].items()}, k * r[1])
+    if isinstance(e, ast.BinOp) and isinstance(e.op, (ast.Add, ast.Sub)):
+        a, b = _lin(e.left), _lin(e.right)
+        if a is None or b is None:
+            return None
+        k = 1.0 if isinstance(e.op, ast.Add) else -1.0
+        terms = dict(a[0])
+        for t, c in b[0].items():
+            terms[t] = terms.get(t, 0.0) + k * c
+        return ({t: c for t, c in terms.items() if c != 0}, a[1] + k * b[1])
+    if isinstance(e, ast.BinOp) and isinstance(e.op, (ast.Mult, ast.Div)):
+        a, b = _lin(e.left), _lin(e.right)
+        if a is None or b is None:
+            return None
+        if isinstance(e.op, ast.Div):
+            if b[0] or b[1] == 0:
+                return None
+            return ({t: c / b[1] for t, c in a[0].items()}, a[1] / b[1])
+        if a[0] and b[0]:
+            return None
+        if b[0]:
+            a, b = b, a
+        return ({t: c * b[1] for t, c in a[0].items() if c * b[1] != 0}, a[1] * b[1])
+    if isinstance(e, ast.Call) and call_name(e) in ('int', 'float') and len(e.args) == 1 and not e.keywords:
+        return _lin(e.args[0])
+    return ({_term_key(e): 1.0}, 0.0)
+
+
+def _lin_text(r):
+    return ' + '.join('%g*%s' % (c, t) for t, c in sorted(r[0].items())) + ' + %g' % r[1]
+
+
+def _term_key(e):
+    if isinstance(e, ast.Subscript) and isinstance(e.value, ast.Name) and not isinstance(e.slice, (ast.Slice, ast.Tuple)):
+        r = _lin(e.slice)
+        if r is not None:
+            return '%s[%s]' % (e.value.id, _lin_text(r))
+    return u(canon(e))
+
+
+def _is_covering_test(test, cs_, hb, bw):
+    """`test` (canonical, expanded) says: width of basin `cs_` + 2 * buffer
+    reaches (or exceeds) 360, i.e. 0 <(=) k * (hb[cs_ + 1] - hb[cs_] + 2 * bw - 360), k > 0."""
+    cs = conjuncts(test, True)
+    if not cs or len(cs) != 1 or not isinstance(cs[0], Cmp):
+        return False
+    less = cs[0].as_less()
+    if less is None:
+        return False
+    small, _strict, big = less
+    a, b = _lin(small), _lin(big)
+    if a is None or b is None:
+        return False
+    terms = dict(b[0])
+    for t, c in a[0].items():
+        terms[t] = terms.get(t, 0.0) - c
+    terms = {t: c for t, c in terms.items() if abs(c) > 1e-12}
+    const = b[1] - a[1]
+    hi = '%s[%s]' % (hb, _lin_text(({cs_: 1.0}, 1.0)))
+    lo = '%s[%s]' % (hb, _lin_text(({cs_: 1.0}, 0.0)))
+    if set(terms) != {bw, hi, lo} or terms[hi] <= 0:
+        return False
+    k = terms[hi]
+    return abs(terms[lo] + k) < 1e-9 and abs(terms[bw] - 2 * k) < 1e-9 and abs(const + 360 * k) < 1e-9
+
+
+def _aff(e, bw, hb, lit):
+    """(coefficient of the buffer, constant) of an expression over the buffer
+    parameter and the LITERAL boundary set `lit` (constant folding: len(hb),
+    hb[k], max/min, the largest difference of neighbouring boundaries)."""
+    if isinstance(e, ast.Constant):
+        return (0.0, float(e.value)) if type(e.value) in (int, float) else None
+    if isinstance(e, ast.Name):
+        return (1.0, 0.0) if e.id == bw else None
+    if isinstance(e, ast.UnaryOp) and isinstance(e.op, (ast.USub, ast.UAdd)):
+        r = _aff(e.operand, bw, hb, lit)
+        return None if r is None else ((-r[0], -r[1]) if isinstance(e.op, ast.USub) else r)
+    if isinstance(e, ast.BinOp):
+        a, b = _aff(e.left, bw, hb, lit), _aff(e.right, bw, hb, lit)
+        if a is None or b is None:
+            return None
+        if isinstance(e.op, ast.Add):
+            return (a[0] + b[0], a[1] + b[1])
+        if isinstance(e.op, ast.Sub):
+            return (a[0] - b[0], a[1] - b[1])
+        if isinstance(e.op, ast.Mult) and (a[0] == 0 or b[0] == 0):
+            return (a[0] * b[1] + b[0] * a[1], a[1] * b[1])
+        if isinstance(e.op, ast.Div) and b[0] == 0 and b[1] != 0:
+            return (a[0] / b[1], a[1] / b[1])
+        return None
+    if isinstance(e, ast.Subscript) and isinstance(e.value, ast.Name) and e.value.id == hb:
+        k = const_value(e.slice)
+        return (0.0, float(lit[k])) if type(k) is int and -len(lit) <= k < len(lit) else None
+    if isinstance(e, ast.Call):
+        cn = call_name(e) or ''
+        if cn == 'float' and len(e.args) == 1:
+            return _aff(e.args[0], bw, hb, lit)
+        if cn == 'len' and len(e.args) == 1 and isinstance(e.args[0], ast.Name) and e.args[0].id == hb:
+            return (0.0, float(len(lit)))
+        diffs = [b - a for a, b in zip(lit[:-1], lit[1:])]
+        isdiff = lambda x: isinstance(x, ast.Call) and call_name(x) in ('np.diff', 'numpy.diff') and len(x.args) == 1 and not x.keywords \
+            and isinstance(x.args[0], ast.Name) and x.args[0].id == hb
+        if cn in ('max', 'min', 'np.max', 'np.min', 'np.amax', 'np.amin') and len(e.args) == 1 and isdiff(e.args[0]) and not e.keywords:
+            return (0.0, float(max(diffs) if 'max' in cn else min(diffs)))
+        if isinstance(e.func, ast.Attribute) and e.func.attr in ('max', 'min') and not e.args and not e.keywords and isdiff(e.func.value):
+            return (0.0, float(max(diffs) if e.func.attr == 'max' else min(diffs)))
+        if cn in ('max', 'min') and e.args and not e.keywords:
+            vs = [_aff(x, bw, hb, lit) for x in e.args]
+            if all(v is not None and v[0] == 0 for v in vs):
+                return (0.0, max(v[1] for v in vs) if cn == 'max' else min(v[1] for v in vs))
+    return None
+
+
+def d3_buffer_range(ck, mod, exit_info):
+    """The wrap-around basin is recognised by is_buffered_transition through
+    `upper gate < lower gate` alone.  For the basin [lo, hi] of width w the
+    gates are lo - b and hi + b (mod 360): they stay in that order exactly
+    while w + 2b <= 360.  So for every boundary set the library passes
+    (literals in the wrappers) every ADMITTED buffer (what _rotamers'
+    validation lets through, folded with that literal set) must keep
+    widest basin + 2 * buffer <= 360 - unless the exit test itself treats a
+    basin that spans the circle as not leavable.  Plain arithmetic on source
+    literals; no inequality solving."""
+    rule = 'C20.D3.gates.buffer-range'
+    F = '_rotamers'
+    fn = mod.func(F)
+    fi = finfo(mod, fn)
+    if len(params(fn)) < 3:
+        ck.missing(rule, 'signature of _rotamers')
+        return
+    _ang, hb, bw = params(fn)[:3]
+    sets = {}
+    for q, g in mod.functions.items():
+        if g is fn or '.' in q:
+            continue
+        gfi = None
+        for c in calls_in(g):
+            if call_name(c) != F:
+                continue
+            b = bind_args(c, params(fn))
+            if b is None or hb not in b:
+                ck.missing(rule, 'boundaries argument of `%s` in %s' % (u(c)[:80], q))
+                continue
+            gfi = gfi or finfo(mod, g)
+            v = gfi.expand(b[hb])
+            vals = [const_value(x) for x in v.elts] if isinstance(v, (ast.List, ast.Tuple)) else None
+            if not vals or any(type(x) not in (int, float) for x in vals) or len(vals) < 2:
+                ck.missing(rule, 'boundary set passed by %s is not a literal list: %s' % (q, u(v)[:80]))
+                continue
+            sets.setdefault(tuple(vals), []).append(q)
+    ck.floor(rule, len(sets), 2, 'literal boundary sets passed to _rotamers')
+    rets = returns_of(fn)
+    if len(rets) != 1:
+        ck.missing(rule, 'single return of _rotamers')
+        return
+    facts = guard_atoms(fi, rets[0])
+    if facts is None:
+        ck.missing(rule, 'the input validation of _rotamers is not a conjunction of atomic conditions')
+        return
+    if fi.rd.defs_at(rets[0], bw) != {'PARAM'}:
+        ck.missing(rule, '%s is rebound inside _rotamers' % bw)
+        return
+    handled = bool(exit_info.get('covering-handled'))
+    failing = []
+    for lit, users in sorted(sets.items()):
+        sup, opaque = None, []
+        for a in facts:
+            if not isinstance(a, Cmp) or bw not in names_loaded(fi.expand(a.lhs)) | names_loaded(fi.expand(a.rhs)):
+                continue
+            less = a.as_less()
+            if less is None:
+                continue
+            small, strict, big = less
+            x, y = _aff(canon(fi.expand(small)), bw, hb, lit), _aff(canon(fi.expand(big)), bw, hb, lit)
+            if x is None or y is None:
+                opaque.append(repr(a))
+                continue
+            d1, d0 = y[0] - x[0], y[1] - x[1]          # 0 <(=) d1 * b + d0
+            if d1 < 0:
+                bound = d0 / -d1
+                if sup is None or bound < sup[0] or (bound == sup[0] and strict):
+                    sup = (bound, strict)
+        widest = max(b - a for a, b in zip(lit[:-1], lit[1:]))
+        con = 'buffer range admitted for the boundary set %s' % (list(lit),)
+        who = ', '.join(sorted(set(users)))
+        if sup is not None and widest + 2 * sup[0] <= 360 + 1e-9:
+            ck.ok(rule, mod, fn, con, 'buffer %s %g keeps widest basin (%g) + 2 * buffer within 360 (%s)' % ('<' if sup[1] else '<=', sup[0], widest, who))
+        elif handled:
+            ck.ok(rule, mod, fn, con, 'wider buffers are admitted, but is_buffered_transition treats a widened basin that spans the circle as not leavable')
+        elif opaque:
+            ck.missing(rule, 'a validation condition on the buffer is not a linear form over literals: %s' % '; '.join(opaque)[:160])
+        else:
+            failing.append('%s for %s (passed by %s): widest basin %g, broken for every buffer above %g' % (
+                ('buffer %s %g' % ('<' if sup[1] else '<=', sup[0])) if sup else 'any buffer', list(lit), who, widest, (360 - widest) / 2.0))
+    if failing:
+        ck.bad(rule, mod, fn, F, 'buffer range admitted for the boundary sets the library passes',
+               '_rotamers admits %s. A basin widened by the buffer on both sides exceeds the full circle as soon as width + 2 * buffer > 360: '
+               'the swapped gates of get_gates cross a second time (upper gate > lower gate), is_buffered_transition then takes the '
+               'ordinary-basin branch and the exit test is inverted - the state changes while the angle is still inside the widened basin '
+               '(hysteresis lost, e.g. boundaries [0, 180, 360], buffer 100, angles [10, 200] -> states [0, 1]). Neither the validation '
+               '(widest basin + 2 * buffer <= 360) nor the exit test (no transition when the widened basin spans the circle) covers it' % (
+                   '; '.join(failing)))
+
+
+def _mask_of(fi, idx):
+    """The boolean mask a subscript selects with: np.where(m) / np.nonzero(m) / m."""
+    idx = canon(fi.expand(idx))
+    if isinstance(idx, ast.Call) and call_name(idx) in ('np.where', 'np.nonzero', 'numpy.where', 'numpy.nonzero') and len(idx.args) == 1 and not idx.keywords:
+        idx = idx.args[0]
+    if isinstance(idx, ast.Subscript) and isinstance(idx.value, ast.Call) and call_name(idx.value) in ('np.where', 'np.nonzero') \
+            and len(idx.value.args) == 1 and const_value(idx.slice) == 0:
+        idx = idx.value.args[0]
+    return idx
+
+
+def _num(e):
+    v = const_value(canon(e))
+    return float(v) if type(v) in (int, float) else None
+
+
+def d1_wrapped_angles(ck, mod):
+    """Angles are brought into [0, P) by adding the period P to the negative
+    ones.  In floating point x + P == P for every x in (-ulp(P)/2, 0) - in
+    float32, which mdtraj returns, for x down to -1.5e-5 - so after the wrap
+    the array can contain exactly P, which lies in no basin (first-frame
+    search finds none: state -1; digitize gives n_basins; get_gates indexes
+    past the boundaries).  Every such wrap must therefore be followed, before
+    the array is used, by a clamp / re-wrap of the values >= P."""
+    rule = 'C20.D1.angles-in-range'
+    n = 0
+    for q, fn in mod.functions.items():
+        if '.' in q:
+            continue
+        fi = None
+        for W in walk_local(fn):
+            if not (isinstance(W, ast.AugAssign) and isinstance(W.op, ast.Add) and isinstance(W.target, ast.Subscript)
+                    and isinstance(W.target.value, ast.Name)):
+                continue
+            P = _num(W.value)
+            if P is None or P <= 0:
+                continue
+            fi = fi or finfo(mod, fn)
+            X = W.target.value.id
+            m = _mask_of(fi, W.target.slice)
+            cs = conjuncts(m, True) if isinstance(m, ast.Compare) else None
+            if not cs or len(cs) != 1 or not isinstance(cs[0], Cmp):
+                continue
+            less = cs[0].as_less()
+            if less is None or not (isinstance(less[0], ast.Name) and less[0].id == X and _num(less[2]) == 0):
+                continue                      # not "the negative entries of X"
+            n += 1
+            ck.analysed(mod, fn)
+            clamps = []
+            for C in walk_local(fn):
+                if C is W or not isinstance(C, (ast.Assign, ast.AugAssign)):
+                    continue
+                tg = C.targets[0] if isinstance(C, ast.Assign) and len(C.targets) == 1 else C.target if isinstance(C, ast.AugAssign) else None
+                if isinstance(tg, ast.Subscript) and isinstance(tg.value, ast.Name) and tg.value.id == X:
+                    cm = _mask_of(fi, tg.slice)
+                    cc = conjuncts(cm, True) if isinstance(cm, ast.Compare) else None
+                    cl = cc[0].as_less() if cc and len(cc) == 1 and isinstance(cc[0], Cmp) else None
+                    if cl is None or not (isinstance(cl[2], ast.Name) and cl[2].id == X) or _num(cl[0]) is None:
+                        continue
+                    c, strict = _num(cl[0]), cl[1]             # entries with c <(=) X
+                    covers = c < P if strict else c <= P
+                    v = _num(C.value)
+                    if isinstance(C, ast.Assign) and covers and v is not None and 0 <= v < P:
+                        clamps.append(C)
+                    elif isinstance(C, ast.AugAssign) and isinstance(C.op, ast.Sub) and covers and v == P and c >= 0:
+                        clamps.append(C)
+                elif isinstance(C, ast.Assign) and isinstance(tg, ast.Name) and tg.id == X and isinstance(C.value, ast.Call):
+                    cn = call_name(C.value) or ''
+                    a = C.value.args
+                    if cn in ('np.clip', 'numpy.clip') and len(a) == 3 and isinstance(a[0], ast.Name) and a[0].id == X and _num(a[2]) is not None and _num(a[2]) < P:
+                        clamps.append(C)
+                    elif cn in ('np.minimum', 'np.fmin') and len(a) == 2 and isinstance(a[0], ast.Name) and a[0].id == X and _num(a[1]) is not None and _num(a[1]) < P:
+                        clamps.append(C)
+            good = None
+            for C in clamps:
+                if not fi.cfg.dominates(W, C) or fi.cfg.reachable(W, 'EXIT', avoiding=[C]):
+                    continue
+                early = [S for S in fi.cfg.nodes if not isinstance(S, (str, Assume)) and S is not W and S is not C
+                         and any(nm.id == X for nm in header_uses(S)) and fi.cfg.reachable(W, S, avoiding=[C])]
+                if not early:
+                    good = C
+                    break
+            if good is not None:
+                ck.ok(rule, mod, W, '%s; %s' % (u(W), u(good)), 'values the wrap rounds up to %g are clamped before the angles are used' % P)
+            else:
+                ck.bad(rule, mod, W, q, 'wrap of the negative angles by +%g without a clamp of the values that reach %g' % (P, P),
+                       '`%s` adds the period to the negative entries in the array\'s own floating type: an entry in (-ulp/2, 0) - down to '
+                       '-1.5e-5 for the float32 angles mdtraj returns - becomes exactly %g, outside [0, %g). No clamp / re-wrap of the '
+                       'entries >= %g follows before `%s` is used (dihedral_angles does it: `angles[angles > 359.5] = 359.5`), so '
+                       '_rotamers receives an angle that lies in no basin: the first frame keeps the marker -1, a later frame gets '
+                       'basin index n_basins (np.digitize) and get_gates indexes past the boundaries (IndexError)' % (u(W), P, P, P, X))
+    ck.floor(rule, n, 2, 'in-place wraps of negative angles in rotamer.py')
 
 
 # ---------------------------------------------------------------------------
@@ -1212,7 +1575,8 @@ def check(ck):
     mod = ck.repo.mod(RO)
     d1_carried_state(ck, mod)
     d3_gates(ck, mod)
-    d3_exit_test(ck, mod)
+    d3_buffer_range(ck, mod, d3_exit_test(ck, mod) or {})
+    d1_wrapped_angles(ck, mod)
     d2_transitions(ck)
     d2_empty_result(ck)
     check_no_arg_mutation(ck, 'C20.D4.inputs-unmodified', [(RO, '_rotamers'), (RO, 'get_gates'), (RO, 'is_buffered_transition'), (DI, 'transitions')])
